@@ -10,6 +10,7 @@ SeqsUpTo(S, lo, hi) == UNION {[1..n -> S] : n \in lo..hi}
 BlockSet == SeqsUpTo(MinN..MaxN, MinW, MaxW)
 KernelSet == SeqsUpTo(BlockSet, MinB, MaxB)
 TraceSet == SeqsUpTo(KernelSet, 1, MaxK)
+NDKernelSet == SeqsUpTo(SeqsUpTo((IF MinN > 1 THEN MinN ELSE 1)..MaxN, 1, MaxW), 1, MaxB)   \* no empty unit
 
 Sh(sm_, sub_) == [sm |-> sm_, sub |-> sub_]
 Shapes_1 == {<<Sh(1, 1)>>}
@@ -17,6 +18,7 @@ Shapes_small == {<<Sh(1, 1)>>, <<Sh(1, 2)>>, <<Sh(2, 1)>>, <<Sh(1, 1), Sh(1, 1)>
 Shapes_par == {<<Sh(2, 2)>>, <<Sh(1, 2), Sh(2, 1)>>}
 Shapes_2dev == {<<Sh(1, 1), Sh(1, 1)>>}
 Shapes_222 == {<<Sh(2, 2), Sh(2, 2)>>}
+Shapes_scen == Shapes_small \cup Shapes_par \cup Shapes_222 \cup {<<Sh(3, 1)>>, <<Sh(1, 3)>>, <<Sh(2, 1), Sh(1, 1), Sh(1, 2)>>}
 
 \* hand-picked ragged traces for the larger platform shapes
 RaggedTraces == { <<  << <<2, 1>>, <<1>> >>, << <<1, 1, 2>> >>  >>,
@@ -27,13 +29,16 @@ DegenerateTraces == { <<  << <<2, 0>>, <<1>> >>  >>,
                       <<  <<>>, << <<1>> >>  >>,
                       <<  << <<0>> >>, <<>>, << <<>> >>  >> }
 
-MCInit == \E sh \in Shapes, t \in TraceSet : InitWith(sh, t)
-MCSpec == MCInit /\ [][Next]_vars
-MCFair == MCSpec /\ WF_vars(Next)
+\* the trace is built while it is submitted: any kernel of KernelSet, at any moment, MaxK times
+MCInit == \E sh \in Shapes : InitWith(sh, <<>>)
+MCNext == (\E kern \in KernelSet : Len(tr) < MaxK /\ SubmitNew(kern)) \/ SimNext
+MCSpec == MCInit /\ [][MCNext]_vars
+MCFair == MCSpec /\ WF_vars(SimNext)
+MCTermination == <>[](Quiet /\ AllDone)
 
+\* hand-picked traces, loaded up front
 RInit == \E sh \in Shapes, t \in RaggedTraces : InitWith(sh, t)
 RSpec == RInit /\ [][Next]_vars
 DInit == \E sh \in Shapes, t \in RaggedTraces \cup DegenerateTraces : InitWith(sh, t)
 DSpec == DInit /\ [][Next]_vars
-DFair == DSpec /\ WF_vars(Next)
 =============================================================================
